@@ -123,10 +123,12 @@ def clause_b(facts, rep):
     rep.require(n >= 1, 'C04.b: pow10[fract_len] subscript not found')
 
 
-def clause_c(facts, rep):
-    """guards of the exact fast paths"""
+def clause_c(facts, rep, raw=None):
+    """guards of the exact fast paths (facts: normalised view for the range / dominance parts; raw: bodies as written for
+    the parts that bind a named accumulator)"""
     n = 0
     seen = set()
+    raw_by_name = {g.name: g for g in (raw or facts).functions}
     for f in facts.functions:
         if f.cls_qn != PARSER or f.short != 'parseNumber':
             continue
@@ -174,72 +176,55 @@ def clause_c(facts, rep):
             rep.check(c in consts, 'E5.int-boundary', f.qn, 'comparison against %d (%s)' % (c, why), consts.get(c, f.loc),
                       'large constants compared: %s' % sorted(consts), facts.config)
         # last digit bound for 20-digit numbers: UINT64_MAX % 10 == 5 ; the code must compare against 5
-        for bid, i, s, e in f.walk():
+        for bid, i, s, e in raw_by_name.get(f.name, f).walk():
             if e.get('k') == 'bin' and e['op'] == '<=' and strip(e['l']).get('k') == 'ref' and strip(e['l']).get('name') == 'num':
                 n += 1
                 rep.check(cval(e['r']) == (2 ** 64 - 1) % 10, 'E5.int-boundary', f.qn, 'last-digit bound %s' % show(e), locline(e['loc']),
                           'must be UINT64_MAX %% 10 == 5', facts.config)
     rep.require(n >= 5, 'C04.c: only %d guard obligations found' % n)
-    # parseFloatingFast internal thresholds
+    # parseFloatingFast itself: evaluated (sv/minterp.py, IEEE binary64 arithmetic) for mantissas below 2^53 and every
+    # exponent the caller admits; whenever it reports success the double must be the correctly rounded value of
+    # man * 10^exp10 (exact rational arithmetic) - whatever thresholds / branch order / table accesses it uses
+    from ..minterp import Interp, Unsupported, UndefinedBehaviour
+    from fractions import Fraction
     for f in facts.functions:
-        if f.cls_qn == PARSER and f.short == 'parseFloatingFast':
-            rep.fn(f)
-            th = sorted(set(cval(e['r']) for _, _, _, e in f.walk() if e.get('k') == 'bin' and e['op'] == '>' and cval(e['r']) is not None))
-            rep.check(22 in th, 'E5.fast-guard', f.qn, 'two-step threshold 22 in %s' % th, f.loc, '10^22 is the largest exactly representable power of ten', facts.config)
-            fl = [e for _, _, _, e in f.walk() if e.get('k') == 'flit']
-            lim = [e['v'] for e in fl]
-            ok = all(float(v) <= 1e15 for v in lim) and lim
-            rep.check(ok, 'E5.fast-guard', f.qn, 'intermediate product bound %s' % lim, f.loc, 'man*10^(exp10-22) must stay <= 1e15 < 2^53 so both multiplications are exact', facts.config)
-            # every multiply/divide of the accumulator acts on an exactly representable operand: either the freshly
-            # converted mantissa (< 2^53, guarded by the caller) or a product that was tested <= L <= 2^53 since its last change
-            from ..e2_dom import Must as _Must
-            dref = [p_ for p_ in f.params if p_.get('name') == 'd' or 'double &' in (p_.get('t') or '')]
-            rep.require(len(dref) == 1, 'C04.c: accumulator parameter of parseFloatingFast not bound')
-            if dref:
-                did = dref[0]['id']
-
-                def is_d(x):
-                    x = strip(x)
-                    return x is not None and x.get('k') == 'ref' and x.get('id') == did
-
-                def gen_stmt(st):
-                    st = strip(st)
-                    if st is not None and st.get('k') == 'bin' and st['op'] == '=' and is_d(st['l']):
-                        return ['exact']
-                    return []
-
-                def kill_stmt(st):
-                    st = strip(st)
-                    if st is not None and st.get('k') == 'bin' and st['op'] in ('*=', '/=', '+=', '-=') and is_d(st['l']):
-                        return ['exact']
-                    return []
-
-                def gen_edge(b, cond, sense):
-                    c = strip_expect(cond)
-                    if c is not None and c.get('k') == 'bin' and c['op'] in ('>', '>=') and is_d(c['l']) and sense is False:
-                        r = strip(c['r'])
-                        lim_ = None
-                        for y in walk(c['r']):
-                            if y.get('k') == 'flit':
-                                lim_ = float(y['v'])
-                        if lim_ is None and cval(c['r']) is not None:
-                            lim_ = float(cval(c['r']))
-                        if lim_ is not None and 0 <= lim_ <= 2.0 ** 53:
-                            return ['exact']
-                    return []
-                Mx = _Must(f, gen_stmt=gen_stmt, kill_stmt=kill_stmt, gen_edge=gen_edge)
-                nops = 0
-                for bid, i, st in f.stmts():
-                    s_ = strip(st)
-                    if s_ is not None and s_.get('k') == 'bin' and s_['op'] in ('*=', '/=') and is_d(s_['l']):
-                        stt = Mx.at(bid, i)
-                        if stt is None:
+        if f.cls_qn == PARSER and f.short == 'parseFloatingFast' and len(f.params) == 3:
+            fr = raw_by_name.get(f.name, f)
+            rep.fn(fr)
+            mans = [1, 2, 3, 5, 7, 9, 10, 11, 99, 1000, 123456789, 2 ** 53 - 1, 2 ** 53 - 2, 2 ** 52 + 1, 2 ** 52, 10 ** 15, 10 ** 15 - 1, 10 ** 15 + 1, 999999999999999,
+                    4503599627370497, 9007199254740881, 8 * 10 ** 15 + 1, 10 ** 14 + 3, 5 ** 22, 5 ** 21 + 2, 3 ** 33]
+            x = 0x9E3779B97F4A7C15
+            for _ in range(160):
+                x = (x * 6364136223846793005 + 1442695040888963407) & ((1 << 64) - 1)
+                mans.append((x >> 11) | 1)
+                mans.append(((x >> 30) | 1) % (10 ** 9))
+            bad = None
+            cnt = acc = 0
+            try:
+                for man in mans:
+                    if not 0 < man < 2 ** 53:
+                        continue
+                    for e10 in range(-22, 38):
+                        it = Interp(fr, facts)
+                        r, env, _, _ = it.run({fr.params[0]['id']: 0.0, fr.params[1]['id']: e10, fr.params[2]['id']: man}, {})
+                        cnt += 1
+                        if not r:
                             continue
-                        nops += 1
-                        rep.check('exact' in stt, 'E5.fast-guard', f.qn, 'operand of %s is exactly representable' % show(s_), locline(s_['loc']),
-                                  'each multiply/divide of the accumulator must act on the converted mantissa or on a product tested <= 2^53 '
-                                  'since it was last changed (otherwise the result is rounded twice)', facts.config)
-                rep.require(nops >= 4, 'C04.c: only %d accumulator operations found in parseFloatingFast' % nops)
+                        acc += 1
+                        got = env.get(fr.params[0]['id'])
+                        want = float(man * 10 ** e10) if e10 >= 0 else float(Fraction(man, 10 ** -e10))
+                        if got != want:
+                            bad = 'man = %d, exp10 = %d: reports success with %r, the correctly rounded value is %r' % (man, e10, got, want)
+                            break
+                    if bad:
+                        break
+            except UndefinedBehaviour as ex:
+                bad = 'man = %d, exp10 = %d: undefined behaviour: %s' % (man, e10, ex)
+            except Unsupported as ex:
+                raise AnalysisBroken('C04.c: parseFloatingFast cannot be evaluated: %s' % ex)
+            rep.require(acc >= cnt // 3, 'C04.c: parseFloatingFast accepted only %d of %d evaluated inputs (the exact path is expected to take most of them)' % (acc, cnt))
+            rep.check(bad is None, 'E5.fast-exact', f.qn, 'every accepted (mantissa < 2^53, exponent in [-22, 37]) gives the correctly rounded double: %d accepted of %d evaluated' % (acc, cnt),
+                      f.loc, bad or '', facts.config)
     # Eisel-Lemire range guard constant and log2(10) approximation
     for f in facts.functions:
         if f.qn == NS + 'AtofEiselLemire64' or f.qn == NS + 'ParseFloatingNormalFast':
@@ -409,10 +394,11 @@ def run(rep, tier):
     configs = ['K1'] if tier == 'quick' else ['K1', 'K3', 'K7']
     for cfg in configs:
         facts = get_facts(cfg)
+        nfacts = get_facts(cfg, norm=True)     # the guard / range rules see through locals that name a condition or an index (sv/normalize.py)
         rep.unit(facts)
         clause_a(facts, rep)
-        clause_b(facts, rep)
-        clause_c(facts, rep)
+        clause_b(nfacts, rep)
+        clause_c(nfacts, rep, raw=facts)
         clause_d(facts, rep)
         clause_e(facts, rep)
         clause_f(facts, rep)
